@@ -100,10 +100,10 @@ theorem asgn_minus_const (q idx dg y ty v) :
 
 /-! ## casts are transparent -/
 
-/-- ONE cast around the whole right-hand side (`h`: the implementation strips exactly one) -/
-theorem cast_whole_rhs (q idx dg x r) (h : r.isCast = false) :
+/-- a cast around the whole right-hand side (`r` may itself be a cast: any number of casts) -/
+theorem cast_whole_rhs (q idx dg x r) :
     compute q idx dg (.assign "=" (.id x) (.cast r)) = compute q idx dg (.assign "=" (.id x) r) :=
-  compute_assign_cast q idx dg "=" x r h
+  compute_assign_cast q idx dg "=" x r
 
 /-- casts around the operands of a binary operation (any depth: `l`, `r` may be casts again) -/
 theorem cast_operands (q idx dg x op l r) :
@@ -124,8 +124,8 @@ theorem standalone_unary_no_effect (q idx dg op e)
     compute q idx dg (.unop op e) = .ok (skip idx dg) :=
   compute_unop_skip q idx dg op e h
 
-/-! ## non-vacuity: the common value is a successful, non-trivial analysis; the side conditions
-    are satisfiable and needed -/
+/-! ## non-vacuity: the common value is a successful, non-trivial analysis; the one side
+    condition (`standalone_unary_no_effect`) is satisfiable -/
 
 example : (compute true 0 [] (.unop "p++" (.id "x"))).toOption.map (fun o => (o.index, o.rels.map (·.vars)))
     = some (1, [["x"]]) := by decide
@@ -137,12 +137,9 @@ example : (compute true 0 [] (.assign "=" (.id "y") (.unop "-" (.id "x")))).toOp
     (fun o => (o.index, o.rels.map (·.vars))) = some (1, [["y", "x"]]) := by decide
 example : (compute true 0 [] (.assign "=" (.id "y") (.unop "!" (.binop "<" (.id "a") (.id "b"))))).toOption.map
     (fun o => (o.index, o.rels.map (·.vars), o.skipped)) = some (0, [["y"]], []) := by decide
-/-- `cast_whole_rhs` needs `h`: with two casts the statement is skipped as unsupported -/
-example : (compute true 0 [] (.assign "=" (.id "x") (.cast (.cast (.id "y"))))).toOption.map (·.skipped)
-      = some ["Assignment"] ∧
-    (compute true 0 [] (.assign "=" (.id "x") (.cast (.id "y")))).toOption.map (·.skipped) = some [] := by
-  decide
-example : (Node.id "y").isCast = false := rfl
+-- `cast_whole_rhs`: a doubly cast right-hand side `x = (T)(T)y` is analysed as `x = y`
+example : (compute true 0 [] (.assign "=" (.id "x") (.cast (.cast (.id "y"))))).toOption.map
+    (fun o => (o.index, o.rels.map (·.vars), o.skipped)) = some (0, [["x", "y"]], []) := by decide
 /-- `standalone_unary_no_effect`: hypothesis satisfiable (`-x;`, `(a+b)++;`), and not for `x++;` -/
 example : ¬ (Gen.incDec.contains "-" = true ∧ (Node.id "x").rmCast.isId = true) := by decide
 example : ¬ (Gen.incDec.contains "p++" = true ∧ (Node.binop "+" (.id "a") (.id "b")).rmCast.isId = true) := by
